@@ -41,6 +41,7 @@ def C01(rep, prog, tier):
     _run(rep, wrappers.shortcut_dominance, ex)
     _run(rep, part.check_all, ex, only=("inference.consistency_sat.consistency",))
     _answers_reach_the_caller(rep, ex)
+    _per_query_isolation(rep, ex, table)
 
 
 def _answers_reach_the_caller(rep, ex):
@@ -78,6 +79,7 @@ def C02(rep, prog, tier):
     _run(rep, wrappers.shortcut_dominance, ex)
     _run(rep, part.check_all, ex, only=("inference.consistency_sat.consistency",))
     _answers_reach_the_caller(rep, ex)
+    _per_query_isolation(rep, ex, table)
 
 
 def C03(rep, prog, tier):
@@ -100,6 +102,7 @@ def C03(rep, prog, tier):
     _run(rep, part.check_all, ex)
     _encoding_and_enumeration(rep, ex)
     _answers_reach_the_caller(rep, ex)
+    _per_query_isolation(rep, ex, table)
 
 
 def C04(rep, prog, tier):
@@ -124,6 +127,7 @@ def C04(rep, prog, tier):
     _run(rep, part.check_all, ex)
     _encoding_and_enumeration(rep, ex)
     _answers_reach_the_caller(rep, ex)
+    _per_query_isolation(rep, ex, table)
 
 
 def C07(rep, prog, tier):
@@ -160,6 +164,7 @@ def C07(rep, prog, tier):
     _run(rep, part.check_all, ex)
     _encoding_and_enumeration(rep, ex)
     _run(rep, wrappers.manager_init, ex, roles=("belief_base", "inference_system", "weakly"))
+    _run(rep, mcsops.object_identity, ex)  # (a rule stated twice counts twice in every layer, the infinity layer's neighbours included)
     # the answer given in front of every operator (the shared short cut) in the extended mode as well: it follows from the
     # query alone, whatever the base makes infeasible
     _run(rep, wrappers.shortcut_guard, ex)
@@ -204,6 +209,7 @@ def C11(rep, prog, tier):
     _run(rep, wrappers.manager_init, ex, roles=("belief_base", "inference_system", "smt_solver", "pmaxsat_solver"))
     _run(rep, mcsops.object_identity, ex)
     _mcs_operators(rep, ex, table)
+    _per_query_isolation(rep, ex, table)  # (a constraint object kept across queries is one back-end's private history)
     _run(rep, enum.loop, ex)
     _run(rep, enum.violated, ex)
     _run(rep, enum.block, ex)
@@ -286,6 +292,9 @@ def C12(rep, prog, tier):
             # what is fixed for one tie must not stay in force for the next one: otherwise the answer depends on the order in
             # which ties are enumerated, i.e. on the listing order of the base
             "LEX.balance", "W.balance", "LEX.tie-constraints", "W.decision",
+            # a conditional listed twice (or one object under two keys) counts twice; which layers are left out of a
+            # correction-set computation does not depend on where a conditional stands in the listing
+            "Z3.translate", "W.ignore", "LEX.ignore",
             # necessary for invariance under reordering / equivalent rewriting: an early exit that looks at all conditionals,
             # constants evaluated instead of named
             "C.selffulfilling", "C.relations", "CNF.constants",
@@ -372,6 +381,25 @@ def _operator_inference_paths(rep, ex, table):
         yield f"inference/c_inference.py:{cls.rsplit('.', 1)[1]}._inference", ex.cache.get((f"{cls}._inference", "cinf"), [])
 
 
+
+def _per_query_isolation(rep, ex, table):
+    """An answer depends on the base and on the query asked, not on the queries asked before it on the same manager:
+    nothing an operator asserts for one query stays in a constraint object the next query finds (STATE.solver-per-query),
+    and the conditionals of a base are told apart by what they are, object by object (OBJ.identity)."""
+    prev = rep.only
+    rep.only = {"STATE.solver-per-query"}
+    try:
+        for site, paths in _operator_inference_paths(rep, ex, table):
+            _run(rep, wrappers.solver_per_query, site, paths)
+    finally:
+        rep.only = prev
+    rep.only = {"OBJ.identity"}
+    try:
+        _run(rep, mcsops.object_identity, ex)
+    finally:
+        rep.only = prev
+
+
 def C13(rep, prog, tier):
     rep.explanation = ("C13: STATE.lifetime (operator attributes vs. epistemic state), ROWS.key and PAR.key (provenance of the keys "
                        "under which per-query results are stored and read), PAR.join (typestate of worker processes), "
@@ -382,6 +410,7 @@ def C13(rep, prog, tier):
     _run(rep, wrappers.init_preserves_state, ex)
     _run(rep, wrappers.rows, ex)
     _run(rep, wrappers.refuse_manager, ex, rules=("ROWS.key",))
+    _run(rep, parser_rules.queries_forward, ex)  # (the keys the rows carry are those of the container the caller built)
     # what a query is translated to depends on that query only (no memo across queries keyed by a presentation)
     rep.only = {"CNF.roles", "CNF.pool"}  # (and the id pool is never rewound between queries)
     try:
@@ -506,6 +535,7 @@ def C05(rep, prog, tier):
     _run(rep, wrappers.shortcut_dominance, ex)
     _encoding_and_enumeration(rep, ex)
     _answers_reach_the_caller(rep, ex)
+    _per_query_isolation(rep, ex, table)
 
 
 def C16(rep, prog, tier):
@@ -557,6 +587,7 @@ def C17(rep, prog, tier):
     _run(rep, cinf.answer, ex)
     _run(rep, cinf.minima_encoding, ex)
     _run(rep, cinf.summation, ex)
+    _run(rep, cinf.minima_roles, ex)  # (which correction sets enter which minimum)
     _run(rep, preocf.world_literals, ex)
     _run(rep, preocf.factory_forwarding, ex, which=("init_random_min_c_rep",))
     _run(rep, crev.front_wiring, ex)
@@ -619,6 +650,7 @@ def C06(rep, prog, tier):
     _run(rep, wrappers.refuse, ex)
     _run(rep, wrappers.refuse_manager, ex, rules=("REFUSE", "PREPROC.once", "TIMEOUT.row", "TIMEOUT.flow"))
     _run(rep, wrappers.init_preserves_state, ex)
+    _run(rep, wrappers.manager_init, ex, roles=("belief_base", "weakly"))  # (the state that is refused or accepted is this manager's own, in its mode)
     _run(rep, wrappers.shortcut_dominance, ex)
     _run(rep, diag.flags, ex)
     _run(rep, diag.facts_sat, ex)
